@@ -259,7 +259,7 @@ func provedByValidationLoop(f *ssa.Function, v ssa.Value, at ssa.Instruction) bo
 
 // nilRejectingLoopBefore: `at` lies behind the normal exit of a loop over `list` that leaves on a nil element.
 func nilRejectingLoopBefore(f *ssa.Function, list string, at ssa.Instruction) bool {
-	for _, cd := range ssax.Conds(f) {
+	for _, cd := range condsBoth(f) {
 		if cd.Op != token.EQL && cd.Op != token.NEQ {
 			continue
 		}
@@ -275,7 +275,7 @@ func nilRejectingLoopBefore(f *ssa.Function, list string, at ssa.Instruction) bo
 			}
 			// the loop this test sits in: header `idx < len(list)` from whose body the test is reached and which the test
 			// reaches again; the use must lie behind the header's exit edge
-			for _, h := range ssax.Conds(f) {
+			for _, h := range condsBoth(f) {
 				if h.Op != token.LSS {
 					continue
 				}
@@ -342,7 +342,7 @@ func proveSize(f *ssa.Function, sz ssa.Value, at ssa.Instruction) (string, strin
 	}
 	szp := npath(sz)
 	lo, hi := false, false
-	for _, cd := range ssax.Conds(f) {
+	for _, cd := range condsBoth(f) {
 		if cd.Y == nil || npath(cd.X) != szp {
 			continue
 		}
@@ -461,7 +461,7 @@ func c18DecodedEscapes(c *Ctx, f *ssa.Function, um ssa.CallInstruction, mk func(
 			continue
 		}
 		var edges []ssax.Edge
-		for _, cd := range ssax.Conds(f) {
+		for _, cd := range condsBoth(f) {
 			if cd.Op != token.EQL && cd.Op != token.NEQ {
 				continue
 			}
@@ -534,7 +534,7 @@ func c18DecodedSliceEscapes(c *Ctx, f *ssa.Function, um ssa.CallInstruction, al 
 		missing := ""
 		for _, w := range want {
 			found := false
-			for _, cd := range ssax.Conds(f) {
+			for _, cd := range condsBoth(f) {
 				if cd.Op != token.EQL && cd.Op != token.NEQ {
 					continue
 				}
@@ -580,7 +580,7 @@ func slicePart(v ssa.Value) string {
 func boundEdges(f *ssa.Function, seq, idx ssa.Value) (upper, lower []ssax.Edge) {
 	idx = ssax.Resolve(idx)
 	seqP := ssax.Path(seq)
-	for _, cd := range ssax.Conds(f) {
+	for _, cd := range condsBoth(f) {
 		if cd.Op == token.ILLEGAL {
 			continue
 		}
@@ -630,7 +630,7 @@ func proveIndex(f *ssa.Function, seq, idx ssa.Value, at ssa.Instruction) (string
 	// range index: idx = phi+1 compared < len(seq) in the loop header
 	ip := ssax.Path(idx)
 	if strings.Contains(ip, "(phi((<cycle> + 1)|-1) + 1)") {
-		for _, cd := range ssax.Conds(f) {
+		for _, cd := range condsBoth(f) {
 			if cd.Op == token.LSS && ssax.Resolve(cd.X) == ssax.Resolve(idx) {
 				if call, ok := ssax.Resolve(cd.Y).(*ssa.Call); ok {
 					if b, ok := call.Common().Value.(*ssa.Builtin); ok && b.Name() == "len" {
@@ -646,7 +646,7 @@ func proveIndex(f *ssa.Function, seq, idx ssa.Value, at ssa.Instruction) (string
 	if ms, ok := ssax.Resolve(seq).(*ssa.MakeSlice); ok {
 		if lc, ok := ssax.Resolve(ms.Len).(*ssa.Call); ok {
 			if b, ok := lc.Common().Value.(*ssa.Builtin); ok && b.Name() == "len" {
-				for _, cd := range ssax.Conds(f) {
+				for _, cd := range condsBoth(f) {
 					if cd.Op == token.LSS && ssax.Resolve(cd.X) == ssax.Resolve(idx) {
 						if call, ok := ssax.Resolve(cd.Y).(*ssa.Call); ok {
 							if b2, ok := call.Common().Value.(*ssa.Builtin); ok && b2.Name() == "len" && lenOfSame(call.Common().Args[0], lc.Common().Args[0]) &&
@@ -663,7 +663,7 @@ func proveIndex(f *ssa.Function, seq, idx ssa.Value, at ssa.Instruction) (string
 	if ms, ok := ssax.Resolve(seq).(*ssa.MakeSlice); ok {
 		if la := lenArg(ms.Len); la != nil {
 			if m, isInd := inductionMin(idx); isInd && m >= 0 {
-				for _, cd := range ssax.Conds(f) {
+				for _, cd := range condsBoth(f) {
 					if cd.Op == token.LSS && ssax.Resolve(cd.X) == ssax.Resolve(idx) {
 						if lb := lenArg(cd.Y); lb != nil && lenOfSame(lb, la) && !ssax.ReachableAvoiding(f, at, []ssax.Edge{{From: cd.If.Block(), Succ: 0}}, nil) {
 							return "proved", "counter below the length the slice was made with"
@@ -673,9 +673,13 @@ func proveIndex(f *ssa.Function, seq, idx ssa.Value, at ssa.Instruction) (string
 			}
 		}
 	}
-	// for i := range A { … B[i] … } after a dominating len(A) == len(B)
-	if strings.Contains(ip, "(phi((<cycle> + 1)|-1) + 1)") {
-		for _, cd := range ssax.Conds(f) {
+	// for i := range A { … B[i] … } after a dominating len(A) == len(B) (also the classic `for i := 0; i < len(A); i++`)
+	nonNeg := strings.Contains(ip, "(phi((<cycle> + 1)|-1) + 1)")
+	if m, ok := inductionMin(idx); ok && m >= 0 {
+		nonNeg = true
+	}
+	if nonNeg {
+		for _, cd := range condsBoth(f) {
 			if cd.Op != token.LSS || ssax.Resolve(cd.X) != ssax.Resolve(idx) {
 				continue
 			}
@@ -683,7 +687,7 @@ func proveIndex(f *ssa.Function, seq, idx ssa.Value, at ssa.Instruction) (string
 			if la == nil || ssax.ReachableAvoiding(f, at, []ssax.Edge{{From: cd.If.Block(), Succ: 0}}, nil) {
 				continue
 			}
-			for _, eq := range ssax.Conds(f) {
+			for _, eq := range condsBoth(f) {
 				if eq.Op != token.EQL && eq.Op != token.NEQ {
 					continue
 				}
@@ -710,7 +714,7 @@ func proveIndex(f *ssa.Function, seq, idx ssa.Value, at ssa.Instruction) (string
 	if k, ok := ssax.ConstInt(idx); ok && k >= 0 {
 		okLo = true
 		// len(seq) > k guard
-		for _, cd := range ssax.Conds(f) {
+		for _, cd := range condsBoth(f) {
 			if call, ok := ssax.Resolve(cd.X).(*ssa.Call); ok {
 				if b, ok := call.Common().Value.(*ssa.Builtin); ok && b.Name() == "len" && lenOfSame(call.Common().Args[0], seq) {
 					if n, ok := ssax.ConstInt(cd.Y); ok {
@@ -735,7 +739,7 @@ func proveIndex(f *ssa.Function, seq, idx ssa.Value, at ssa.Instruction) (string
 	}
 	// x[k] inside `for j := m; j < len(x); j++` with m >= k: len(x) > j >= k
 	if k, ok := ssax.ConstInt(idx); ok && k >= 0 && !okUp {
-		for _, cd := range ssax.Conds(f) {
+		for _, cd := range condsBoth(f) {
 			if cd.Op != token.LSS {
 				continue
 			}
@@ -781,7 +785,7 @@ func lenArg(v ssa.Value) ssa.Value {
 func provedNonEmptyByFlag(f *ssa.Function, seq ssa.Value, at ssa.Instruction) bool {
 	// edges on which some range index over seq is < len(seq): the loop body edges
 	var body []ssax.Edge
-	for _, cd := range ssax.Conds(f) {
+	for _, cd := range condsBoth(f) {
 		if cd.Op == token.LSS {
 			if la := lenArg(cd.Y); la != nil && lenOfSame(la, seq) && strings.Contains(ssax.Path(cd.X), "<cycle> + 1") {
 				body = append(body, ssax.Edge{From: cd.If.Block(), Succ: 0})
@@ -791,7 +795,7 @@ func provedNonEmptyByFlag(f *ssa.Function, seq ssa.Value, at ssa.Instruction) bo
 	if len(body) == 0 {
 		return false
 	}
-	for _, cd := range ssax.Conds(f) {
+	for _, cd := range condsBoth(f) {
 		// v < 0 (reject edge = true edge) / v >= 0
 		k, ok := ssax.ConstInt(cd.Y)
 		if !ok || k != 0 || (cd.Op != token.LSS && cd.Op != token.GEQ) {
@@ -917,7 +921,7 @@ func proveSlice(f *ssa.Function, x *ssa.Slice, at ssa.Instruction) (string, stri
 		}
 		if k, ok := ssax.ConstInt(b); ok && k > 0 {
 			proved := false
-			for _, cd := range ssax.Conds(f) {
+			for _, cd := range condsBoth(f) {
 				if call, ok := ssax.Resolve(cd.X).(*ssa.Call); ok {
 					if bi, ok := call.Common().Value.(*ssa.Builtin); ok && bi.Name() == "len" && lenOfSame(call.Common().Args[0], x.X) {
 						if n, ok := ssax.ConstInt(cd.Y); ok {
@@ -943,7 +947,7 @@ func proveSlice(f *ssa.Function, x *ssa.Slice, at ssa.Instruction) (string, stri
 		// non-constant bound: nonceSize style — require a dominating len(x) < bound test returning
 		bp := ssax.Path(b)
 		proved := false
-		for _, cd := range ssax.Conds(f) {
+		for _, cd := range condsBoth(f) {
 			if call, ok := ssax.Resolve(cd.X).(*ssa.Call); ok {
 				if bi, ok := call.Common().Value.(*ssa.Builtin); ok && bi.Name() == "len" && lenOfSame(call.Common().Args[0], x.X) && cd.Y != nil && ssax.Path(cd.Y) == bp {
 					var e *ssax.Edge
@@ -998,7 +1002,7 @@ func isPayloadPtr(p string) bool {
 func proveNonNil(f *ssa.Function, v ssa.Value, at ssa.Instruction) (string, string) {
 	vp := ssax.Path(v)
 	var edges []ssax.Edge
-	for _, cd := range ssax.Conds(f) {
+	for _, cd := range condsBoth(f) {
 		if cd.Op != token.EQL && cd.Op != token.NEQ {
 			continue
 		}
@@ -1017,6 +1021,11 @@ func proveNonNil(f *ssa.Function, v ssa.Value, at ssa.Instruction) (string, stri
 
 // proveMapElem: m[k].f is safe when m[k] was just stored with a freshly allocated value, or k enumerates m itself.
 func proveMapElem(f *ssa.Function, lk *ssa.Lookup, at ssa.Instruction) (string, string) {
+	// the key is the one a range over the same map just produced: the entry exists, and it is the value the range itself
+	// would have handed out (`for k := range m { m[k].f }` is `for _, v := range m { v.f }`)
+	if ssax.RangeKeyOf(lk) != nil {
+		return "proved", "the key enumerates the same map"
+	}
 	mp, kp := ssax.Path(lk.X), ssax.Path(lk.Index)
 	var stores []ssa.Instruction
 	ssax.Instrs(f, func(in ssa.Instruction) {
@@ -1174,7 +1183,7 @@ var c18LenPreconds = []struct {
 func proveLenEq(f *ssa.Function, v ssa.Value, want int64, at ssa.Instruction) (string, string) {
 	vp := npath(v)
 	var edges []ssax.Edge
-	for _, cd := range ssax.Conds(f) {
+	for _, cd := range condsBoth(f) {
 		if cd.Op != token.EQL && cd.Op != token.NEQ {
 			continue
 		}
@@ -1341,7 +1350,7 @@ func c18UnderRecover(c *Ctx, f *ssa.Function, busy map[*ssa.Function]bool) bool 
 func provedMinLen(f *ssa.Function, v ssa.Value, boundSuffix string, at ssa.Instruction) bool {
 	vp := npath(v)
 	var edges []ssax.Edge
-	for _, cd := range ssax.Conds(f) {
+	for _, cd := range condsBoth(f) {
 		var small, big ssa.Value
 		okSucc := -1
 		switch cd.Op {
@@ -1369,4 +1378,26 @@ func provedMinLen(f *ssa.Function, v ssa.Value, boundSuffix string, at ssa.Instr
 		}
 	}
 	return len(edges) > 0 && !ssax.ReachableAvoiding(f, at, edges, nil)
+}
+
+
+// condsBoth lists the branch conditions of f and, for an ordering or equality test between two non-constant operands,
+// also its mirror image (`n > len(x)` next to `len(x) < n`): the provers look for a guard in one orientation and must
+// find it whichever way the programmer wrote it. Both entries describe the same branch and the same edges.
+func condsBoth(f *ssa.Function) []ssax.Cond {
+	cs := ssax.Conds(f)
+	out := make([]ssax.Cond, 0, 2*len(cs))
+	for _, cd := range cs {
+		out = append(out, cd)
+		if cd.Op == token.ILLEGAL || cd.Y == nil {
+			continue
+		}
+		if _, isC := ssax.Resolve(cd.Y).(*ssa.Const); isC {
+			continue
+		}
+		m := cd
+		m.X, m.Y, m.Op = cd.Y, cd.X, ssax.MirrorOp(cd.Op)
+		out = append(out, m)
+	}
+	return out
 }
